@@ -168,6 +168,38 @@ CHECKS = {
              "model of the finding step by step so any other deviation is still reported.",
         design="7/C13", technique="Coq proof (spec-level + refinement) with a machine-checked refutation witness + differential correspondence run",
         note="Claimed with a known finding (D7). Unknown ids are only reachable over gRPC. " + NOTE_COMMON),
+    "C16": dict(
+        text="Theorems (Coq, for ALL numbers of workers, ALL sender programs of ANY number of sender threads and ALL schedules, over a "
+             "transition system of internal/utils/wpool with one step per stretch of code between two pause points: senders, "
+             "lifecycle threads calling Stop/Run, the deferred-send flusher goroutines and the workers): no job is ever executed "
+             "twice (C16_exactly_once: any number of Stop/Run threads, both code variants); a sender always has an enabled step, or "
+             "gets one after one step of another sender holding the list lock - never a worker's step (C16_send_never_blocks_on_"
+             "workers, C16_list_lock_invariant); with at most one thread calling Stop/Run: the lifecycle phase invariant, while the "
+             "pool is stopped and when Stop is about to return no worker/sender/flusher is alive and executions are only logged "
+             "by live workers (C16_stop_clean, C16_phase_invariant); on the repaired code with the first Run returned: no panic and "
+             "no stuck state (C16_no_panic_no_deadlock_partial), 'deferred list non-empty => a flusher that has not yet seen nil "
+             "holds the flusher lock' (C16_flusher_invariant) and in every quiet live state the channel and the deferred list are "
+             "empty and every accepted job was executed exactly once (C16_eventually_run). REFUTED for the code before the two "
+             "fix: commits with vm_compute witnesses that are replayed on the real code: a deferred job stranded in a running idle "
+             "pool (D14, C16_eventually_run_refuted_orig) and send on the closed channel of the previous run when a Send races "
+             "with a restart (D18, C16_no_panic_refuted_restart_orig; found by the randomized run). REFUTED and left open as "
+             "known finding D15: two concurrent Stops, Send before the first Run, Stop inside Run (C16_no_panic_refuted_*), each "
+             "reproduced on the real code on every run; D19 (WaitGroup misuse panic when Send races with Stop, inside "
+             "sync.WaitGroup, seen about once per 10^4 random programs) is an open known finding below the model's granularity. "
+             "Tie: schedule replay through verifhook pause points (goroutines spawned by the pool are adopted by the controller): "
+             "the recorded witnesses first; every replayable complete schedule the extracted model enumerates for up to 3 Sends x "
+             "1 worker x capacity 2 with probes (exhaustive for one or two sender threads of <= 2 Sends in quick, seeded sample "
+             "of the 3-thread ones; all in thorough) plus Stop/Run scenarios - pause-point trace, execution order, accepted jobs, "
+             "queues and flusher lock compared with the model, property oracle on every run; 2000 (thorough 30000) randomized "
+             "Send/Stop/Run programs under the real scheduler with gated jobs; a sample re-evaluated by vm_compute.",
+        design="7/C16", technique="Coq proof (invariants over all interleavings, conserved occurrence count per job) + schedule replay of the "
+                                  "extracted model's schedules on the real pool + randomized concurrent programs",
+        note="Step granularity = pause points (DESIGN appendix A): interleavings inside a step and the runtime's Mutex/WaitGroup/"
+             "channel/select/timer are assumed (D19 lives there). The theorems that hold assume one thread issuing Stop/Run and no "
+             "Send before the first Run returned (otherwise: D15). Jobs accepted but not started when Stop is called are dropped "
+             "(read as allowed: exactly-once is promised while the pool keeps running). Send's time-out is modelled as enabled "
+             "only when the channel is full. 'Send returns promptly' is measured (support), not proved beyond 'never needs a "
+             "worker step'. " + NOTE_COMMON),
     "C17": dict(
         text="Theorems (Coq, every history of any length over Set (with any choice among the candidates and any ENOSPC "
              "spill), orphaned files, cleaner removals and reopen; any number of roots; any limit >= 1, hence the clamped "
